@@ -324,18 +324,19 @@ def _check_sensitive_item_format(val):
 def _extract_enclosing_text(in_val, head="", tail=""):
     """Extract allowed enclosing text from input and return the enclosing and enclosed text."""
     val = in_val
-    for head_text in _PASSWORD_ENCLOSING_HEAD_TEXT:
-        if val.startswith(head_text):
-            head += head_text
-            val = val[len(head_text) :]
-    for tail_text in _PASSWORD_ENCLOSING_TAIL_TEXT:
-        if val.endswith(tail_text):
-            tail = tail_text + tail
-            val = val[: -len(tail_text)]
-
-    if val != in_val:
-        return _extract_enclosing_text(val, head, tail)
-    return head, val, tail
+    while True:
+        prev_val = val
+        for head_text in _PASSWORD_ENCLOSING_HEAD_TEXT:
+            if val.startswith(head_text):
+                head += head_text
+                val = val[len(head_text) :]
+        for tail_text in _PASSWORD_ENCLOSING_TAIL_TEXT:
+            if val.endswith(tail_text):
+                tail = tail_text + tail
+                val = val[: -len(tail_text)]
+        # Iterate (rather than recurse) so long runs of quotes cannot exhaust the stack
+        if val == prev_val:
+            return head, val, tail
 
 
 def generate_default_sensitive_item_regexes():
